@@ -106,6 +106,7 @@ type World struct {
 	Probes map[string]int
 
 	detselPerms int
+	reads       int
 
 	// onFailWrite is called (E5) right before an injected write error is returned.
 	onFailWrite func()
@@ -390,6 +391,25 @@ func (w *World) ParkedLabels() []string {
 	}
 	sort.Strings(out)
 	return out
+}
+
+// ReplyDelay decides whether the reply of the n-th storage read of the run is
+// delivered late. It is a function of (SchedSeed, n) so that it replays with
+// any decision list.
+func (w *World) ReplyDelay() time.Duration {
+	w.mu.Lock()
+	defer w.mu.Unlock()
+	w.reads++
+	p := w.Spec.Policy.ReplyP
+	if p <= 0 {
+		return 0
+	}
+	r := NewRng(Mix(w.Spec.SchedSeed, uint64(w.reads), 0x51e9))
+	if !r.Bool(p) {
+		return 0
+	}
+	w.Faults["slow-read-reply"]++
+	return Pick(r, []time.Duration{time.Second, 10 * time.Second, 100 * time.Second, 1000 * time.Second}) + 273*time.Millisecond
 }
 
 // DetselPerm is installed as the hook the rewritten non-blocking selects call:
